@@ -55,6 +55,7 @@ def cases(ctx):
     yield 'exh', {'maxlen': 2, 'mod': ctx.nshards, 'rem': ctx.shard}
     n = 3000 if q else 50000
     ncli = 120 if q else 2500
+    ctx.new_phase()
     for i in range(n):
         if not ctx.time_left():
             break
